@@ -365,6 +365,7 @@ package main
 (func "(*main.store).add"
   (props C17 C19)
   (requires has-dir (and (not (= (. s dir) nil)) (not (= (. s hooks) nil))))
+  (requires has-policy (not (= (. s policy) nil)))
   (modifies sent.Notify fs.ent fs.dir fs.data fs.dsync fs.esync fs.next io.faults br.pos rnd now hm.msg agent.changes)
   (callsite "(*store.Dir).AddUser" 0
     (requires policy-accepted (policyok (. s policy) $2 $1))
@@ -382,6 +383,7 @@ package main
 (func "(*main.store).update"
   (props C17 C19 C12)
   (requires has-dir (and (not (= (. s dir) nil)) (not (= (. s hooks) nil))))
+  (requires has-policy (not (= (. s policy) nil)))
   (modifies sent.Notify fs.ent fs.dir fs.data fs.dsync fs.esync fs.next io.faults br.pos rnd now hm.msg agent.changes)
   (callsite "(*store.Dir).UpdateUser" 0
     (requires policy-accepted (policyok (. s policy) $2 $1))
@@ -399,6 +401,7 @@ package main
 (func "(*main.store).init"
   (props C17)
   (requires has-dir (not (= (. s dir) nil)))
+  (requires has-policy (not (= (. s policy) nil)))
   (modifies fs.ent fs.dir fs.data fs.dsync fs.esync fs.next io.faults br.pos rnd now hm.msg rd.pos agent.changes)
   (callsite "(*store.Dir).Init" 0
     (requires policy-accepted (policyok (. s policy) $2 $1))
@@ -433,7 +436,7 @@ package main
 ; the answers are named by the call whose result they carry, not by their position in the select
 (func "(*main.store).dispatchRequests"
   (props C04 C17 C18 C12 C19)
-  (requires complete (and (not (= (. s dir) nil)) (not (= (. s hooks) nil))))
+  (requires complete (and (not (= (. s dir) nil)) (not (= (. s hooks) nil)) (not (= (. s policy) nil))))
   (noframe)
   (callsite "(*main.store).init" 0 (requires arguments-are-the-requests (and (= $0 s) (= $1 (. (local req) username)) (= $2 (. (local req) password)))))
   (send "response" (of "(*main.store).init") (requires answers-with-this-requests-result (and (called "(*main.store).init" 0) (= $ch (. (local req) response)) (= (. $v err) (. (callresult "(*main.store).init" 0 0) err)))))
@@ -451,13 +454,13 @@ package main
   (send "response" (of "(*main.store).listFull") (requires answers-with-this-requests-result (and (called "(*main.store).listFull" 0) (= $ch (. (local req) response)) (= (. $v list) (. (callresult "(*main.store).listFull" 0 0) list)) (= (. $v err) (. (callresult "(*main.store).listFull" 0 0) err)))))
   (callsite "(*main.store).authenticate" 0 (requires arguments-are-the-requests (and (= $0 s) (= $1 (. (local req) username)) (= $2 (. (local req) password)))))
   (send "response" (of "(*main.store).authenticate") (requires answers-with-this-requests-result (and (called "(*main.store).authenticate" 0) (= $ch (. (local req) response)) (= (. $v ok) (. (callresult "(*main.store).authenticate" 0 0) ok)) (= (. $v isAdmin) (. (callresult "(*main.store).authenticate" 0 0) isAdmin)) (= (. $v upgradeable) (. (callresult "(*main.store).authenticate" 0 0) upgradeable)) (= (. $v lastChanged) (. (callresult "(*main.store).authenticate" 0 0) lastChanged)) (= (. $v err) (. (callresult "(*main.store).authenticate" 0 0) err)))))
-  (loop 0 (invariant complete (and (not (= (. s dir) nil)) (not (= (. s hooks) nil))))
+  (loop 0 (invariant complete (and (not (= (. s dir) nil)) (not (= (. s hooks) nil)) (not (= (. s policy) nil))))
           ; whatever the dispatcher does to the store -- through the request methods or any helper -- is notified to the hooks caller
           (invariant every-change-is-notified (props C19) (= (- agent.changes sent.Notify) (old (- agent.changes sent.Notify))))))
 
 (func "(*main.store).reload"
   (props C18 C19 C04 C12 C17)
-  (requires complete (and (not (= (. s dir) nil)) (not (= (. s hooks) nil))))
+  (requires complete (and (not (= (. s dir) nil)) (not (= (. s hooks) nil)) (not (= (. s policy) nil))))
   (modifies (. s dir) sent.NewStore io.faults br.pos rd.pos yd.strict)
   (send "NewStore" 0
     (requires only-after-successful-switch (and (= (callresult "store.NewDirFromConfig" 0 1) nil)
@@ -597,7 +600,8 @@ package main
       (and (= $r1 (callresult "main.newZXCVBNPolicy" 0 1))
            (=> (= $r1 nil) (and (= (dyntype $r0) tyZxcvbnPolicy)
                                 (zwf (|box main.zxcvbnPolicy.condition| $r0) (|box main.zxcvbnPolicy.threshold| $r0)))))))
-  (ensures unknown-type-is-an-error (=> (and (not (= policyType "")) (not (= policyType "zxcvbn"))) (not (= $r1 nil)))))
+  (ensures unknown-type-is-an-error (=> (and (not (= policyType "")) (not (= policyType "zxcvbn"))) (not (= $r1 nil))))
+  (ensures a-policy-object (=> (= $r1 nil) (not (= $r0 nil)))))
 
 ; ============================ agent construction (C12 C16 C17 C18) ==================================
 
@@ -626,7 +630,7 @@ package main
                                             (not (= $r1 nil))))
   (ensures config-error-stops-the-agent (=> (not (= (callresult "store.NewDirFromConfig" 0 1) nil)) (not (= $r1 nil))))
   (ensures built-object (=> (= $r1 nil)
-      (and (not (isnil $r0)) (not (= (. $r0 dir) nil)) (not (= (. $r0 hooks) nil)) (= (. $r0 configfile) configfile))))
+      (and (not (isnil $r0)) (not (= (. $r0 dir) nil)) (not (= (. $r0 hooks) nil)) (not (= (. $r0 policy) nil)) (= (. $r0 configfile) configfile))))
   (ensures built (=> (= $r1 nil)
       (and (= (. $r0 dir) (callresult "store.NewDirFromConfig" 0 0))
            (= (. $r0 policy) (callresult "main.NewPasswordPolicy" 0 0))
